@@ -166,6 +166,36 @@ Proof.
     split; [exact F1|constructor; [exact E2|exact F2]].
 Qed.
 
+(* copy(): an unfinalized record with the same entries *)
+Theorem maint_copy_spec m : mi_nodes (mi_copy m) = mi_nodes m /\ mi_lock (mi_copy m) = false.
+Proof. split; reflexivity. Qed.
+
+(* whatever is done to the copy (and copy() itself) leaves the original -- entries, lock and therefore its encoding --
+   exactly as it was: for ALL sequences of copy / operations on the copy *)
+Theorem maint_copy_independent ops : forall s, forallb (fun o => negb (on_original o)) ops = true ->
+  fst (fst (mrun2 s ops)) = fst s.
+Proof.
+  induction ops as [|o ops IH]; intros s H; [reflexivity|].
+  cbn [forallb] in H. apply andb_true_iff in H as [Ho H]. cbn [mrun2].
+  assert (E : fst (fst (mstep2 s o)) = fst s).
+  { destruct o as [op| |op]; [discriminate|reflexivity|]. cbn [mstep2]. destruct (snd s) as [c|]; [|reflexivity].
+    destruct (mstep c op). reflexivity. }
+  destruct (mstep2 s o) as [s1 x]. specialize (IH s1 H). destruct (mrun2 s1 ops) as [s2 xs]. cbn [fst] in *. congruence.
+Qed.
+
+(* a finalized original survives EVERY mixed history (operations on it, copies, operations on the copies) *)
+Theorem maint_finalized_immutable_with_copies ops : forall s, mi_lock (fst s) = true ->
+  fst (fst (mrun2 s ops)) = fst s.
+Proof.
+  induction ops as [|o ops IH]; intros s L; [reflexivity|]. cbn [mrun2].
+  assert (E : fst (fst (mstep2 s o)) = fst s).
+  { destruct o as [op| |op]; [|reflexivity|].
+    - cbn [mstep2]. pose proof (mstep_locked (fst s) op L) as [Q _]. destruct (mstep (fst s) op). exact Q.
+    - cbn [mstep2]. destruct (snd s) as [c|]; [|reflexivity]. destruct (mstep c op). reflexivity. }
+  destruct (mstep2 s o) as [s1 x]. assert (L1 : mi_lock (fst s1) = true) by (cbn [fst] in E; rewrite E; exact L).
+  specialize (IH s1 L1). destruct (mrun2 s1 ops) as [s2 xs]. cbn [fst] in *. congruence.
+Qed.
+
 (* finalize is reached, and stays, from any state *)
 Theorem maint_finalize_locks m : mi_lock (fst (mstep m MFinalize)) = true.
 Proof. reflexivity. Qed.
